@@ -70,6 +70,17 @@ def c15_r1(ctx):
                 if v == 0:
                     zero_e.add((bb, d))
             nonzero_e.add((bb, info["otherwise"]))
+    # `if size == 0` / `if size != 0`
+
+    def _is_zero(op):
+        return op["k"] == "const" and op.get("bits") == "0"
+
+    def _size_vs_zero(d):
+        return (f.origins_of_operand(d["a"]) == size and _is_zero(d["b"])) or (f.origins_of_operand(d["b"]) == size and _is_zero(d["a"]))
+    zero_e |= f.cmp_edges(lambda d: d["op"] == "Eq" and _size_vs_zero(d), True) | f.cmp_edges(lambda d: d["op"] == "Ne" and _size_vs_zero(d), False)
+    nonzero_e |= f.cmp_edges(lambda d: d["op"] == "Eq" and _size_vs_zero(d), False) | f.cmp_edges(lambda d: d["op"] == "Ne" and _size_vs_zero(d), True)
+    nonzero_e |= f.cmp_edges(lambda d: (d["op"] == "Gt" and f.origins_of_operand(d["a"]) == size and _is_zero(d["b"])) or (d["op"] == "Lt" and f.origins_of_operand(d["b"]) == size and _is_zero(d["a"])), True)
+    zero_e |= f.cmp_edges(lambda d: (d["op"] == "Gt" and f.origins_of_operand(d["a"]) == size and _is_zero(d["b"])) or (d["op"] == "Lt" and f.origins_of_operand(d["b"]) == size and _is_zero(d["a"])), False)
     oks = [(bb, idx) for (bb, idx, rv, pl) in f.constructs("std::result::Result", "Ok") if pl["local"] == 0]
     for (bb, idx) in oks:
         if not (zero_e and f.dominated_by_edges(bb, zero_e)):
@@ -172,8 +183,7 @@ def _alphabet(ctx, enc):
     raise AnalysisError("anchor missing: the encoder's alphabet constant")
 
 
-class NarrowedChar(Exception):
-    pass
+from charclass import NarrowedChar, decoder_table_by_intervals
 
 
 def _decoder_table(ctx, dec):
@@ -199,7 +209,10 @@ def _decoder_table(ctx, dec):
                 src = st["rv"]["op"]
                 if src["k"] in ("copy", "move") and dec.local_ty(src["place"]["local"])["s"] == "char":
                     raise NarrowedChar(dec.where(b["i"], i))
-    raise AnalysisError("anchor missing: the decoder's match on characters")
+    # classification by comparisons (`'0'..='9' => c as u32 - '0' as u32`): evaluate the
+    # classifier over a partition of the code points into intervals on which every comparison
+    # has one outcome
+    return decoder_table_by_intervals(dec)
 
 
 @rule("C15.R3", floor=124)
@@ -231,6 +244,15 @@ def c15_r3(ctx):
         if table.get(ch) != i:
             bad.append("%r: encoder index %d, decoder %s" % (chr(ch), i, table.get(ch)))
     extra = [chr(c) for c in table if c not in A]
+    for (lo, hi, kind, v) in info.get("other", []):
+        if kind == "digit-wide":
+            extra.append("U+%04X..U+%04X" % (lo, hi))
+        elif kind == "panic":
+            ctx.viol((dec.id, "decoder-panics-on-character"), "characters U+%04X..U+%04X make the decoder panic instead of returning InvalidCharacter" % (lo, hi), v)
+        elif kind.startswith("other-error"):
+            ctx.viol((dec.id, "decoder-wrong-error"), "characters U+%04X..U+%04X are rejected with %s, not InvalidCharacter" % (lo, hi, kind.split(":")[1]), dec.where(info["bb"]))
+    if info.get("by_intervals"):
+        ctx.inst("decoder classifier evaluated over %d code-point intervals" % info["cells"])
     if bad or extra:
         ctx.viol((dec.id, "codec-tables-disagree"), "encoder and decoder disagree: %s%s" % ("; ".join(bad[:4]), (" ; decoder accepts foreign characters %s" % extra[:4]) if extra else ""), dec.where(info["bb"]))
     else:
@@ -347,14 +369,35 @@ def c15_r4(ctx):
         ctx.inst("default arm", str(e))
         ctx.viol((dec.id, "character-narrowed"), "foreign characters are not rejected: the decoder classifies a truncating cast of the character", str(e))
         return
-    ctx.inst("default arm", dec.where(info["otherwise"]))
-    r = dec.reach([info["otherwise"]])
-    errs = [(bb, idx) for (bb, idx, rv, pl) in dec.constructs("ticket::FromHumanReadableError", "InvalidCharacter") if bb in r]
     lps = [lp for lp in dec.loops() if info["bb"] in lp["body"]]
-    if not errs or (lps and lps[0]["header"] in dec.reach([info["otherwise"]], avoid_blocks=[b for (b, i) in errs])):
-        ctx.viol((dec.id, "foreign-character-accepted"), "a character outside the alphabet does not end in InvalidCharacter", dec.where(info["otherwise"]))
+    if info.get("by_intervals"):
+        # the interval evaluation already decided, for every code point, digit / InvalidCharacter / else
+        ctx.inst("default arm", dec.where(info["bb"]))
+        foreign = [c for c in table if c not in set(b"0123456789abcdefghijklmnopqrstuvwxyzABCDEFGHIJKLMNOPQRSTUVWXYZ")]
+        wide = [o for o in info["other"] if o[2] in ("digit-wide", "unreachable")]
+        if foreign or wide:
+            ctx.viol((dec.id, "foreign-character-accepted"), "a character outside the alphabet does not end in InvalidCharacter (e.g. %r)" % (chr(foreign[0]) if foreign else "U+%04X" % wide[0][0]), dec.where(info["bb"]))
+        else:
+            ctx.ok()
     else:
-        ctx.ok()
+        ctx.inst("default arm", dec.where(info["otherwise"]))
+        r = dec.reach([info["otherwise"]])
+        errs = [(bb, idx) for (bb, idx, rv, pl) in dec.constructs("ticket::FromHumanReadableError", "InvalidCharacter") if bb in r]
+        if not errs or (lps and lps[0]["header"] in dec.reach([info["otherwise"]], avoid_blocks=[b for (b, i) in errs])):
+            ctx.viol((dec.id, "foreign-character-accepted"), "a character outside the alphabet does not end in InvalidCharacter", dec.where(info["otherwise"]))
+        else:
+            ctx.ok()
+    # the decoder is applied to the caller's string itself (no trimming / case folding / replacing first)
+    for cs in ctx.P.callers.get(dec.id, []):
+        g = cs.fn
+        if g.body.get("in_test"):
+            continue
+        ctx.inst("decoder called from %s" % g.id, cs.where)
+        ao = g.origins_of_operand(cs.args[0])
+        if ao and all(o[0][0] == "param" and len(o) == 1 for o in ao):
+            ctx.ok()
+        else:
+            ctx.viol((g.id, "string-altered-before-decoding"), "the string handed to the decoder is not the caller's string itself (derives from %s): strings that are not a 43-character encoding can be accepted" % sorted(map(fmt_origin, ao)), cs.where)
     # the value decoded is what is returned: result array filled from to_bytes_le in order
     # every character is consumed (complete loop over chars of the parameter)
     if lps:
@@ -687,9 +730,25 @@ def c19_r3(ctx):
     okj = False
     for c in j:
         sep = _const_bytes_of(ds, c.args[1])
-        src = ds.origins_of_operand(c.args[0])
-        if sep == b"\n" and all(any(st == ("field", "infos") for st in o) and not any(st[0] == "truncate" for st in o) for o in _through_collect(ds, src)):
-            okj = True
+        if sep != b"\n":
+            continue
+        vec = ds.vars_of_operand(c.args[0])
+        veco = ds.origins_of_operand(c.args[0])
+        for lp in ds.loops():
+            if not (lp["iter"] and all(o[0][0] == "param" and ("field", "infos") in o and not any(st[0] == "truncate" for st in o) for o in lp["iter"])):
+                continue
+            pushes = [p2 for p2 in ds.calls_to("std::vec::Vec::<T, A>::push") if p2.bb in lp["body"] and
+                      (ds.vars_of_operand(p2.args[0]) == vec or ds.origins_of_operand(p2.args[0]) == veco)]
+            good = [p2 for p2 in pushes if all(is_call(o, "ticket::Ticket::human_readable") and
+                                               ds.origins_of_operand(ds.call_at[o[0][2]].args[0]) == {e + (("field", "ticket"),) for e in lp["elem"]}
+                                               for o in ds.origins_of_operand(p2.args[1])) and ds.origins_of_operand(p2.args[1])]
+            if good and ds.every_iteration_calls(lp, [p2.bb for p2 in good]) and not ds.loop_exits(lp) and len(pushes) == len(good):
+                okj = True
+        if not okj:
+            src = ds.origins_of_operand(c.args[0])
+            if all(any(st == ("field", "infos") for st in o) and not any(st[0] == "truncate" for st in o) for o in _through_collect(ds, src)) and src \
+                    and all(is_call(o, "std::iter::Iterator::collect") for o in src):
+                okj = True
     if okj:
         ctx.ok()
     else:
@@ -987,3 +1046,39 @@ def c16_r4(ctx):
             ctx.ok()
         elif ok:
             ctx.viol((f.id, "decoded-buffer-unfilled"), "cannot see the state file being read into the decoded buffer", c.where)
+
+
+@rule("C16.R5", floor=3)
+def c16_r5(ctx):
+    """The derived encoders of the state types write every field unconditionally: bincode is
+    positional, so a field that is skipped when empty (`skip_serializing_if`) makes a valid
+    state unreadable; the derived decoders fill no field from a default."""
+    state_types = ("history::RuleHistory", "blob::FileStateVec", "blob::FileState", "ticket::Ticket", "current::CurrentFileStatesInside")
+    for f in ctx.P.fns.values():
+        if f.body.get("in_test") or f.kind == "promoted":
+            continue
+        it = f.body.get("impl_trait")
+        st = (f.body.get("impl_self_ty") or {}).get("s")
+        if it == "serde::Serialize" and st in state_types:
+            ctx.inst("derived Serialize for %s" % st, f.where(0))
+            a = ctx.P.facts.adts.get(st)
+            nfields = len(a["variants"][0]["fields"]) if a else None
+            sf = [c for c in f.calls if c.name == "serialize_field"]
+            skips = [c for c in f.calls if c.name == "skip_field"]
+            ends = [c for c in f.calls if c.name == "end"]
+            if skips:
+                ctx.viol((st, "field-skipped-when-serialising"), "a field of %s can be left out of the positional (bincode) encoding: what one invocation records is not read back by the next" % st, skips[0].where)
+            elif nfields is not None and sf and (len(sf) != nfields or (ends and not all(f.dominated_by_blocks(ends[0].bb, [c.bb]) for c in sf))):
+                ctx.viol((st, "field-not-always-serialised"), "%s does not write each of its %d field(s) on every path" % (st, nfields), sf[0].where)
+            else:
+                ctx.ok()
+    for f in ctx.P.fns.values():
+        if f.body.get("in_test") or f.kind == "promoted":
+            continue
+        if "serde::Deserialize" in f.id and any(t in f.id for t in state_types) and "visit_seq" in f.id:
+            ctx.inst("derived visit_seq %s" % f.id, f.where(0))
+            d = [c for c in f.calls if c.path == "std::default::Default::default" or c.name == "default"]
+            if d:
+                ctx.viol((f.id, "field-defaulted-when-deserialising"), "a missing field of a state type is filled with a default: a truncated state file can be read as valid data", d[0].where)
+            else:
+                ctx.ok()
